@@ -30,6 +30,12 @@ type Machine struct {
 	NoMerge   bool // disable if-conversion (debugging)
 	// NoOrderPrune disables the order-literal contradiction test in Decide.
 	NoOrderPrune bool
+	// Concretize maps a named integer type ("pkgpath.Name") to the largest
+	// value considered: conversions to it fork over the feasible values.
+	Concretize map[string]int
+	// SolveHyps decides satisfiability of a conjunction and, when
+	// satisfiable, returns the value of want; it is installed by the verifier.
+	SolveHyps func(hyps []*smt.Term, want *smt.Term) (val *smt.Term, sat bool, ok bool)
 	// CallHook lets the verifier replace a call by the callee's contract.
 	CallHook func(p *Path, fn *ssa.Function, args []Val, site ssa.Instruction) (Val, bool)
 	// LoopHook is called on every arrival at a loop header that carries an
